@@ -94,30 +94,32 @@ def c01_r1(ctx):
             rv = o.value
             frag_expr = norm(strip_pre(o.deref(rv.elts[1]))) if isinstance(rv, ast.Tuple) and len(rv.elts) == 2 else ""
             frag_final = norm(strip_pre(o.env.get("fragments"))) if o.env.get("fragments") is not None else ""
+            from ..util import union_terms
+            frag_terms = union_terms(o.env.get("fragments")) if o.env.get("fragments") is not None else []
             nm = f"{sel}.name.value"
             rec_spread = f"self._resolve_selection_set(self.fragments_definitions[{nm}].selection_set, root_type)"
             if scn["kind"] == "FieldNode":
                 if f"fields.append({sel})" not in effs:
                     probs.append(f"a selected field is not appended to the resolved fields (effects {effs})")
             elif scn["kind"] == "FragmentSpreadNode" and scn["unpack"] is False:
-                if f"fragments.add({nm})" not in effs:
-                    probs.append(f"a spread used as mixin is not recorded in `fragments` (effects {effs})")
+                if f"fragments.add({nm})" not in effs and "{" + nm + "}" not in frag_terms:
+                    probs.append(f"a spread used as mixin is not recorded in `fragments` (effects {effs}; fragments = {frag_terms})")
             elif scn["kind"] == "FragmentSpreadNode":
-                recorded = f"self._unpacked_fragments.add({nm})" in effs or f"fragments.add({nm})" in effs
-                merged = f"fields.extend({rec_spread}[0])" in effs and f".union({rec_spread}[1])" in frag_final
+                recorded = f"self._unpacked_fragments.add({nm})" in effs or f"fragments.add({nm})" in effs or "{" + nm + "}" in frag_terms
+                merged = f"fields.extend({rec_spread}[0])" in effs and f"{rec_spread}[1]" in frag_terms
                 if not recorded:
                     probs.append("the spread is neither recorded as unpacked nor as mixin: its fields are absent from the model and its definition is not sent")
                 elif f"self._unpacked_fragments.add({nm})" in effs and not merged:
                     probs.append(f"the unpacked fragment's fields/fragments are not merged (effects {effs}; fragments={frag_final[:80]})")
             elif scn["kind"] == "InlineFragmentNode" and scn["inline_root"]:
                 rec = f"self._resolve_selection_set({sel}.selection_set, self._get_inline_fragment_root_type({sel}.type_condition.name.value, root_type))"
-                if f"fields.extend({rec}[0])" not in effs or f".union({rec}[1])" not in frag_final:
+                if f"fields.extend({rec}[0])" not in effs or f"{rec}[1]" not in frag_terms:
                     probs.append(f"an applicable inline fragment is not merged (effects {effs})")
             else:
                 if any(e.startswith("fields.") or e.startswith("fragments.") for e in effs):
                     probs.append(f"a non-applicable inline fragment contributes fields: {effs}")
             # the accumulated mixin set is updated and both results returned
-            if not any(e.startswith("<setattr>(self, '_fragments_used_as_mixins'") and "fragments" in e for e in effs):
+            if not any(e.startswith("<setattr>(self, '_fragments_used_as_mixins', self._fragments_used_as_mixins | ") for e in effs):
                 probs.append("self._fragments_used_as_mixins is not updated with the fragments of this selection set")
             if not (isinstance(rv, ast.Tuple) and len(rv.elts) == 2 and is_name(rv.elts[0], "fields")):
                 probs.append(f"does not return (fields, fragments): {norm(rv) if rv is not None else None}")
@@ -337,11 +339,12 @@ def c01_r4(ctx):
             if isinstance(c, ast.Call) and is_name(c.func, "generate_annotation_name") and c.args:
                 a = c.args[0]
                 a = env.get(a.id, a) if isinstance(a, ast.Name) and a.id not in ("class_name",) else a
-                parts = _flatten_add(a)
-                # '"' + X (+ Y) + '"'
-                if len(parts) >= 3 and is_const(parts[0], '"') and is_const(parts[-1], '"'):
-                    mid = parts[1:-1]
-                    annotated.append(" + ".join(res(m) for m in mid) if len(mid) > 1 else res(mid[0]))
+                from ..util import concat_parts
+                parts = concat_parts(a)
+                # '"' + X (+ Y) + '"'   (a quoted forward reference)
+                if len(parts) >= 3 and parts[0] == repr('"') and parts[-1] == repr('"'):
+                    mid = [norm(env[m]) if m in env and m != "class_name" else m for m in parts[1:-1]]
+                    annotated.append(" + ".join(mid))
         ok = sorted(registered) == sorted(annotated) and registered
         ctx.check(bool(ok), key(fi, "pairing"), f"classes registered for generation {sorted(registered)} differ from classes named in annotations {sorted(annotated)}", fi.loc(),
                   okmsg=f"{fn}: {len(registered)} annotation/class pairs agree")
@@ -648,7 +651,8 @@ def _iterative_toposort(ctx, outer: FuncInfo):
                     for w in walk_no_nested(outer.node):
                         if isinstance(w, ast.While):
                             body = " ; ".join(norm(x) for x in w.body)
-                            if f"{src.id}.append(" in body and ".add(" in body and ".pop()" in body:
+                            from ..util import set_marks
+                            if f"{src.id}.append(" in body and any(set_marks(x) for x in w.body) and ".pop()" in body:
                                 ctx.fail(key(outer, "reverse pre-order"), f"`{R}` is built by reversing a pre-order (visit-time) list: with a shared dependency (A -> B, C ; B -> C) a fragment is emitted before its base class "
                                          "(reverse pre-order is a topological order only for trees)", outer.loc(c))
                                 return
@@ -658,11 +662,13 @@ def _iterative_toposort(ctx, outer: FuncInfo):
             for br in ast.walk(w):
                 if isinstance(br, ast.If):
                     bt = " ; ".join(norm(x) for x in br.body)
-                    marks = [x for x in ast.walk(br) if isinstance(x, ast.Call) and isinstance(x.func, ast.Attribute) and x.func.attr in ("update", "add") and any(x is y for b_ in br.body for y in ast.walk(b_))]
+                    from ..util import set_marks
+                    marks_ = [(nm_, x) for b_ in br.body for nm_, x in set_marks(b_)]
+                    marks = [x for _, x in marks_]
                     pushes = [x for x in ast.walk(br) if isinstance(x, ast.Call) and isinstance(x.func, ast.Attribute) and x.func.attr in ("extend", "append") and any(x is y for b_ in br.body for y in ast.walk(b_))]
                     emits_else = any(isinstance(x, ast.Call) and isinstance(x.func, ast.Attribute) and x.func.attr == "append" and is_name(x.func.value, R) for b_ in br.orelse for x in ast.walk(b_))
-                    if marks and pushes and emits_else and f"not in {norm(marks[0].func.value)}" in norm(w):
-                        ctx.fail(key(outer, "marked when pushed"), f"dependencies are added to `{norm(marks[0].func.value)}` when they are pushed and later filtered by the same set, while a node is emitted only when popped: "
+                    if marks and pushes and emits_else and f"not in {marks_[0][0]}" in norm(w):
+                        ctx.fail(key(outer, "marked when pushed"), f"dependencies are added to `{marks_[0][0]}` when they are pushed and later filtered by the same set, while a node is emitted only when popped: "
                                  "a dependency that is already on the stack below is skipped, so its dependant is emitted first", outer.loc(marks[0]))
                         return
     raise AnalysisError("_get_sorted_fragments_names no longer uses the recursive post-order visit(); the iterative form present is not one the analyser can decide")
@@ -885,33 +891,31 @@ def c02_r4(ctx):
                 return has_sel
             return None
         return atom
-    eff = lambda c: isinstance(c.func, ast.Attribute) and c.func.attr in ("add", "update")
-    o = [x for x in Interp(fi, mk("spread"), is_effect=eff).run() if any("loop body once" in t for t in x.trace)]
-    good = len(o) == 1
-    if good:
-        effs = [norm(strip_pre(e)) for e in o[0].effects]
-        final = norm(strip_pre(o[0].deref(o[0].value))) if o[0].value is not None else ""
-        nm = f"{el}.name.value"
-        good = f"names.add({nm})" in effs and f".union(self._get_fragments_names(self.fragments_definitions[{nm}].selection_set))" in final
-    ctx.check(good, key(fi, "spread"), "a spread must contribute its own name and, recursively, the spreads of its definition", fi.loc(), okmsg="spread: name + recursive closure of its definition")
+    from ..util import union_terms
+
+    def terms(fn, atom):
+        o = [x for x in Interp(fn, atom).run() if x.kind == "return" and any("loop body once" in t for t in x.trace)]
+        if len(o) != 1 or o[0].value is None:
+            return None
+        return union_terms(o[0].deref(o[0].value))
+    nm = f"{el}.name.value"
+    t = terms(fi, mk("spread"))
+    ctx.check(t == sorted(["{" + nm + "}", f"self._get_fragments_names(self.fragments_definitions[{nm}].selection_set)"]), key(fi, "spread"),
+              f"a spread must contribute its own name and, recursively, the spreads of its definition; it contributes {t}", fi.loc(), okmsg="spread: name + recursive closure of its definition")
     for kind in ("field", "inline"):
-        o = [x for x in Interp(fi, mk(kind), is_effect=eff).run() if any("loop body once" in t for t in x.trace)]
-        final = norm(strip_pre(o[0].deref(o[0].value))) if len(o) == 1 and o[0].value is not None else ""
-        good = len(o) == 1 and f".union(self._get_fragments_names({el}.selection_set))" in final
-        ctx.check(good, key(fi, kind), f"the selection set of a nested {kind} is not searched for spreads", fi.loc(), okmsg=f"{kind}: nested selection set searched")
+        t = terms(fi, mk(kind))
+        ctx.check(t == [f"self._get_fragments_names({el}.selection_set)"], key(fi, kind), f"the selection set of a nested {kind} is not searched for spreads (contributes {t})", fi.loc(), okmsg=f"{kind}: nested selection set searched")
     ar = repo.func(RT + "_get_all_related_fragments")
-    o = [x for x in Interp(ar, lambda e: None).run() if any("loop body once" in t for t in x.trace)]
-    good = len(o) == 1
-    if good:
-        v = norm(strip_pre(o[0].value))
-        good = v.endswith(".union(self._unpacked_fragments)") and "self._fragments_used_as_mixins.copy()" in v \
-            and ".union(self._get_fragments_names(self.fragments_definitions[<elem>(self._fragments_used_as_mixins)].selection_set))" in v
-    ctx.check(good, key(ar, "closure"), "related fragments must be mixins + their recursive spreads + unpacked fragments", ar.loc(), okmsg="closure = mixins U closure(mixins) U unpacked")
+    t = terms(ar, lambda e: None)
+    want = sorted(["self._fragments_used_as_mixins.copy()", "self._unpacked_fragments", "self._get_fragments_names(self.fragments_definitions[<elem>(self._fragments_used_as_mixins)].selection_set)"])
+    ctx.check(t == want, key(ar, "closure"), f"related fragments must be mixins + their recursive spreads + unpacked fragments; got {t}", ar.loc(), okmsg="closure = mixins U closure(mixins) U unpacked")
     gs = repo.func(RT + "get_operation_as_str")
     op_txt = "print_ast(self._get_node_without_mixin_directive(self.operation_definition))"
     frag_txt = "print_ast(self._get_node_without_mixin_directive(self.fragments_definitions[<elem>(sorted(self._get_all_related_fragments()))]))"
-    vals = [norm(v) for v in _opstr_values(repo, plugin=False, fragments=True)]
-    ctx.check(vals == [f"{op_txt} + ('\\n\\n' + {frag_txt})"], key(gs, "definitions appended"),
+    from ..util import concat_parts
+    docs = _opstr_values(repo, plugin=False, fragments=True)
+    vals = [norm(v) for v in docs]
+    ctx.check(len(docs) == 1 and concat_parts(docs[0]) == [op_txt, "'\\n\\n'", frag_txt], key(gs, "definitions appended"),
               f"one printed definition per related fragment (sorted closure) must follow the operation, separated by a blank line; the document is {vals}", gs.loc(), okmsg="each related fragment definition appended once, in sorted order")
     vals0 = [norm(v) for v in _opstr_values(repo, plugin=False, fragments=False)]
     ctx.check(vals0 == [op_txt], key(gs, "operation printed"), f"without fragments the document must be print_ast of the operation definition; it is {vals0}", gs.loc(), okmsg="operation text = print_ast(definition)")
